@@ -335,7 +335,7 @@ class C10(Property):
     props_module = 'ChemModel.Props.C10'
     build_modules = ('ChemModel.Model.KinUnits', 'ChemModel.Basic.Proto')
     driver = 'ChemModel/Driver/C10.lean'
-    n_quick, n_thorough = 420, 6000
+    n_quick, n_thorough = 420, 3000
     float_tol = RTOL
     case_timeout = 120
     rule = ('reactions of orders 0-3 (0-6 for the acceptance checks) with constants in s/min/h/ms x M/mM/uM/mol.m-3/mol.cm-3 '
@@ -370,7 +370,7 @@ class C10(Property):
     anchors = [('chempy/chemistry.py', 'Equilibrium.as_reactions'), ('chempy/chemistry.py', 'Reaction.copy'), ('chempy/chemistry.py', 'Reaction.__init__'),
                ('chempy/chemistry.py', 'Reaction.check_consistent_units'), ('chempy/chemistry.py', 'Equilibrium.check_consistent_units'),
                ('chempy/chemistry.py', 'Reaction.order'), ('chempy/chemistry.py', 'Reaction.rate_expr'),
-               ('chempy/util/_expr.py', 'Expr.dedimensionalisation'),
+               ('chempy/util/_expr.py', 'Expr.dedimensionalisation'), ('chempy/util/_expr.py', 'Expr.arg'), ('chempy/util/_expr.py', 'Expr.all_args'),
                ('chempy/kinetics/rates.py', 'MassAction.active_conc_prod'), ('chempy/kinetics/rates.py', 'MassAction.__call__'),
                ('chempy/kinetics/ode.py', 'get_odesys'), ('chempy/kinetics/ode.py', '_get_derived_unit'),
                ('chempy/kinetics/ode.py', '_mk_dedim'), ('chempy/kinetics/ode.py', '_validate'),
@@ -402,8 +402,10 @@ class C10(Property):
             cases.append(self._ode_case(rng, tier, named=True, spectator=rng.random() < 0.12))
         for _ in range(share(0.10)):
             cases.append(self._as_reactions_case(rng))
-        for _ in range(share(0.04)):
+        for _ in range(min(share(0.04), 70)):
             cases.append(self._expr_case(rng))
+        for _ in range(share(0.06)):
+            cases.append(self._history_case(rng, tier))
         for _ in range(share(0.05)):
             c = self._ode_case(rng, tier, named=True)
             c['kind'] = 'ode_named_wrong'
@@ -418,7 +420,7 @@ class C10(Property):
             c = self._ode_case(rng, tier, named=True)
             c['kind'] = 'dedim_tcp'
             cases.append(c)
-        for _ in range(max(3, int(n * 0.02))):
+        for _ in range(min(max(3, int(n * 0.02)), 45)):
             c = self._ode_case(rng, 'quick', named=True)
             while len(c['rxns']) > 3:
                 c = self._ode_case(rng, 'quick', named=True)
@@ -576,6 +578,23 @@ class C10(Property):
             c['confs'].append({'reg': _rand_reg(rng), 'c0': c0, 't': {'mag': _rand_mag(rng), 'u': [[rng.choice(TIME_UNITS), 1]]}})
         return c
 
+    def _history_case(self, rng, tier):
+        """SEVERAL unit-aware systems built one after the other in ONE process, whose rate constants are MassAction expressions
+        with unique keys drawn from a small pool of names: the same name carries different values / units / registries in
+        different systems (and in other cases of the run).  State leaking from one get_odesys call into the next shows here."""
+        pool = ['k1', 'k2', 'k3', 'k4', 'k5', 'k6', 'k7', 'k8']
+        systems = []
+        for i in range(rng.randint(2, 3)):
+            subst, rxns = _rand_system(rng, 'quick')
+            keys = ['k1'] + rng.sample(pool[1:], len(rxns) - 1)      # every system reuses 'k1'
+            if rng.random() < 0.3:
+                rng.shuffle(keys)
+            phys_k = [_nice(rng) for _ in rxns]
+            phys_c = {x: _nice(rng) for x in subst}
+            systems.append({'subst': subst, 'rxns': rxns, 'keys': keys, 'include': rng.random() < 0.7,
+                            'conf': _config(rng, subst, rxns, phys_k, phys_c)})
+        return {'kind': 'history', 'systems': systems}
+
     def _expr_case(self, rng):
         """a reaction whose rate constant is MassAction(Arrhenius([A, Ea/R])) or MassAction(Eyring([c0, dH/R])): oracle only"""
         cls = rng.choice(['Arrhenius', 'Eyring'])
@@ -655,6 +674,13 @@ class C10(Property):
             return {'op': 'dedim_args', 'reg': _mj_reg(c['reg']), 'args': [_mj(q) for q in c['args']], 'kind': k}
         if k == 'ode_units_arrhenius':
             return {'op': 'ode_units', 'reg': _mj_reg(c['reg']), 'pk': ['temperature'], 'include': True, 'unique': [], 'kind': k}
+        if k == 'history':
+            sy = c['systems'][-1]
+            a = sy['conf']
+            m = {'op': 'ode_rhs' if sy['include'] else 'ode_rhs_named', 'reg': _mj_reg(a['reg']), 'rxns': self._rxn_json(sy),
+                 'y': [_mj(a['c0'][x]) for x in sy['subst']], 'ns': len(sy['subst']), 'kind': k}
+            m['ks' if sy['include'] else 'p'] = [_mj(q) for q in a['ks']]
+            return m
         if k == 'as_reactions':
             if c['mode'] == 'tuple':
                 return None
@@ -691,6 +717,9 @@ class C10(Property):
             return 'as_reactions mode=%s units=%s K=%s' % (c['mode'], c['units'], 'plain' if 'num' in c['K'] else 'quantity')
         if k == 'ode_expr':
             return 'ode_expr %s order=%d' % (c['cls'], sum(c['reac'].values()))
+        if k == 'history':
+            return 'history of %d systems sharing unique-key names (%s)' % (
+                len(c['systems']), '/'.join('incl' if sy['include'] else 'named' for sy in c['systems']))
         return k
 
     # ------------------------------------------------------------------------------------------------ real code
@@ -734,6 +763,8 @@ class C10(Property):
                     from chempy import Equilibrium
                     Equilibrium(dict(c['reac']), dict(c['prod']), _real(c['param']))
                     return 'ok'
+                if k == 'history':
+                    return json.dumps(self._run_history(c)[-1])
                 if k == 'as_reactions':
                     fw, bw = self._as_reactions(c)
                     return json.dumps([list(_read(fw.param)), list(_read(bw.param))])
@@ -780,6 +811,36 @@ class C10(Property):
             except Exception as e:
                 return exc_name(e)
         return '!unknown-kind'
+
+    def _run_history(self, c):
+        """every system of the history, in order, in this process -> list of unitless right-hand sides"""
+        from chempy import Reaction, ReactionSystem
+        from chempy.kinetics.ode import get_odesys
+        from chempy.kinetics.rates import MassAction
+        out = []
+        for sy in c['systems']:
+            conf = sy['conf']
+            vals = [_real(q) for q in conf['ks']]
+            rx = [Reaction(dict(r['reac']), dict(r['prod']), MassAction([v], unique_keys=(key,)))
+                  for r, v, key in zip(sy['rxns'], vals, sy['keys'])]
+            rsys = ReactionSystem(rx, ' '.join(sy['subst']))
+            odesys, extra = get_odesys(rsys, include_params=sy['include'], unit_registry=_real_reg(conf['reg']))
+            c0 = {x: _real(conf['c0'][x]) for x in sy['subst']}
+            p = () if sy['include'] else {key: _real(q) for key, q in zip(sy['keys'], conf['ks'])}
+            t = _real(conf['t'])
+            before = _snap([t, c0, p, vals])
+            x, y, pp = odesys.to_arrays(t, c0, p)
+            f = odesys.f_cb(x[-1], y, pp)
+            _unchanged('get_odesys / to_arrays / f_cb (unique-key constants)', before, [t, c0, p, vals])
+            if not sy['include']:
+                uq = extra['unique']
+                if list(uq) != list(sy['keys']):
+                    raise InputMutated("extra['unique'] has keys %r, the system's unique keys are %r" % (list(uq), sy['keys']))
+                for key, v0 in zip(sy['keys'], vals):
+                    if _snap(uq[key]) != _snap(v0):
+                        raise InputMutated("extra['unique'][%r] = %r, the system's own constant is %r" % (key, uq[key], v0))
+            out.append([float(v) for v in f.ravel()[:len(sy['subst'])]])
+        return out
 
     def _as_reactions(self, c):
         from chempy import Equilibrium
@@ -850,6 +911,10 @@ class C10(Property):
             a, b = json.loads(io), json.loads(mo)
             if k == 'args_dims':
                 return a == b
+            if k == 'history':
+                sy = c['systems'][-1]
+                sc = self._scales(sy, sy['conf'])
+                return len(a) == len(b) and all(_close(x, F(yv), s_) for x, yv, s_ in zip(a, b, sc))
             if k in ('ode', 'ode_named'):
                 sc = self._scales(c, c['A'])
                 return len(a) == len(b) and all(_close(x, F(yv), s) for x, yv, s in zip(a, b, sc))
@@ -947,6 +1012,8 @@ class C10(Property):
             return 'named rate constant %d has dimension %s (order %d needs %s) but to_arrays accepted it: f=%r' % (
                 c['bad'], _book(c['A']['ks'][c['bad']])[2], sum(c['rxns'][c['bad']]['reac'].values()),
                 rate_dims(sum(c['rxns'][c['bad']]['reac'].values())), f)
+        if k == 'history':
+            return self._oracle_history(c)
         if k == 'as_reactions':
             return self._oracle_as_reactions(c)
         if k == 'ode_expr':
@@ -1164,6 +1231,59 @@ class C10(Property):
             for x, v, w in zip(c['subst'], ph, want):
                 if not _close(v, w, scale):
                     return ('as_reactions pair in registry %s: d[%s]/dt = %r mol m-3 s-1, by hand %r' % (conf['reg'], x, v, float(w)))
+        return None
+
+    def _oracle_history(self, c):
+        """each system of the history gives ITS OWN hand-computed rates (nothing leaks from the systems built before it), and the
+        `variables` dicts handed to rate expressions come back unchanged"""
+        try:
+            fs = self._run_history(c)
+        except Exception as e:
+            return 'history of unit-aware systems raised %s: %s' % (exc_name(e), str(e)[:200])
+        for i, (sy, f) in enumerate(zip(c['systems'], fs)):
+            conf = sy['conf']
+            unit = float(_reg_si(conf['reg'], CONC) / _reg_si(conf['reg'], TIME))
+            hand = self._hand_rhs(sy, conf)
+            sc = [x * unit for x in self._scales(sy, conf)]
+            for x, v, w, scale in zip(sy['subst'], f, hand, sc):
+                if not _close(v * unit, w, scale):
+                    return ('system %d of a history (unique keys %s, include_params=%s, registry %s): d[%s]/dt = %r mol m-3 s-1, by hand '
+                            'from ITS OWN constants %s: %r; earlier systems used %s' % (
+                                i, sy['keys'], sy['include'], conf['reg'], x, v * unit, conf['ks'], float(w),
+                                [(s0['keys'], s0['conf']['ks']) for s0 in c['systems'][:i]]))
+        # the dicts handed to rate expressions
+        from chempy import Reaction, ReactionSystem
+        from chempy.kinetics.rates import MassAction
+        sy = c['systems'][-1]
+        conf = sy['conf']
+        rx = [Reaction(dict(r['reac']), dict(r['prod']), MassAction([_real(q)], unique_keys=(key,)))
+              for r, q, key in zip(sy['rxns'], conf['ks'], sy['keys'])]
+        rsys = ReactionSystem(rx, ' '.join(sy['subst']))
+        variables = {x: _real(conf['c0'][x]) for x in sy['subst']}
+        variables['not_a_key'] = 1.0
+        before = _snap(variables)
+        try:
+            rates = rsys.rates(variables)
+            for r in rx:
+                r.rate(variables)
+                r.rate_expr()(variables, reaction=r)
+            v2 = dict(variables)
+            b2 = _snap(v2)
+            for r in rx:
+                r.rate_expr().dedimensionalisation(_real_reg(conf['reg']), v2)
+        except Exception as e:
+            return 'evaluating the rate expressions on a variables dict raised %s: %s' % (exc_name(e), str(e)[:160])
+        if _snap(variables) != before:
+            return 'rate evaluation modified the caller\'s variables dict: before %r, after %r' % (before, _snap(variables))
+        if _snap(v2) != b2:
+            return 'dedimensionalisation modified the caller\'s variables dict: before %r, after %r' % (b2, _snap(v2))
+        hand = self._hand_rhs(sy, conf)
+        sc = self._scales(sy, conf)
+        unit = float(_reg_si(conf['reg'], CONC) / _reg_si(conf['reg'], TIME))
+        for x, w, scale in zip(sy['subst'], hand, sc):
+            v, d = _read(rates[x])
+            if d != _dadd(CONC, TIME, -1) or not _close(v, w, scale * unit):
+                return 'ReactionSystem.rates with quantities: rate of %s = %r %s, by hand %r mol m-3 s-1' % (x, v, d, float(w))
         return None
 
     def _oracle_expr(self, c):
